@@ -16,6 +16,7 @@ type verdict struct {
 	compiledOK bool
 	okAfter    bool   // validation verdict of the formatted text
 	kind       string // "" = property holds; otherwise the failing clause
+	astOnError bool   // Parse returned an error AND an AST (a caller could format a text that does not parse)
 	detail     string
 	out        string
 }
@@ -34,7 +35,7 @@ func check(text string) verdict {
 	src := []byte(text)
 	cfgF, err := config.Parse(src)
 	if err != nil || cfgF == nil {
-		return verdict{}
+		return verdict{astOnError: err != nil && cfgF != nil}
 	}
 	v := verdict{parsed: true}
 	cfgC, err := config.Parse(src) // a second, untouched AST for Compile
@@ -68,6 +69,10 @@ func check(text string) verdict {
 		cfgA, _ := config.Parse(src)
 		path, what, blank := astDiff(cfgA, cfg2)
 		switch {
+		case routeOrderDiff(c1, c2) != "":
+			// same routes, different evaluation order (first match wins): named separately
+			v.kind = "fmt-reorders-routes"
+			v.detail += "; " + routeOrderDiff(c1, c2)
 		case what == "dropped" && blank:
 			v.kind = "fmt-drops-blank"
 		case what == "dropped":
@@ -87,6 +92,26 @@ func check(text string) verdict {
 		v.kind, v.detail = "fmt-unstable", fmt.Sprintf("second format differs: %q vs %q", firstDiffLine(string(out), string(out2)), firstDiffLine(string(out2), string(out)))
 	}
 	return v
+}
+
+// routeSeq projects a compiled configuration on its route evaluation order:
+// one "channel path" entry per route, top-down.
+func routeSeq(c config.Compiled) []string {
+	out := make([]string, 0, len(c.Routes))
+	for _, r := range c.Routes {
+		out = append(out, string(r.ChannelType)+" "+r.Path)
+	}
+	return out
+}
+
+// routeOrderDiff is non-empty when both configurations hold the same routes
+// (as a multiset of channel + path) in a different order.
+func routeOrderDiff(a, b config.Compiled) string {
+	sa, sb := routeSeq(a), routeSeq(b)
+	if reflect.DeepEqual(sa, sb) || !reflect.DeepEqual(sortedCopy(sa), sortedCopy(sb)) {
+		return ""
+	}
+	return fmt.Sprintf("route evaluation order %q -> %q", sa, sb)
 }
 
 func sortedCopy(in []string) []string {
